@@ -4,13 +4,26 @@ Oracle: ``vlib/ref/text.py`` - an independent evaluator written from `help synta
 `TEXT-TRANSFORMER`, `LINE-MATCHER`, `INTEGER-MATCHER`, `REGEX`, `TEXT-SOURCE`.
 
 Layers
-* CLI (the observation points named by the property): PASS/FAIL of a one-assertion test case
-  (`contents FILE : M`, `stdout M`, model = harness-written file / output of the action to check / file written by
-  Exactly from a literal), and the bytes of the file created by `file out.txt = SOURCE -transformed-by T`
-  (SOURCE = file / literal string / here-document / program output), read from the kept sandbox.
+* CLI (the observation points named by the property): PASS/FAIL of a one-assertion test case whose model text is
+  - a file: `contents -rel-home in.txt : M`, `exists -rel-home in.txt : contents M` (FILE-MATCHER),
+  - output of the action to check: `stdout M`, `stderr M`, `contents made.txt : M` (file written by the action),
+  - output of a program: `stdout -from $ cat ...` / `stderr -from ...` with M on the next line,
+  - a literal: `file lit.txt = '...'` / `file lit.txt = <<EOF ...` + `contents lit.txt : M`;
+  M written inline or defined as a symbol (`def text-matcher`).
+  For transformers: the bytes of act/out.txt created by `file out.txt = SOURCE -transformed-by T` (SOURCE = file /
+  literal string / here-document / stdout or stderr of a program / text-source symbol) or by the action to check from
+  `stdin = ... -transformed-by T`, read from the kept sandbox (independent of `equals`); T inline or a symbol
+  (`def text-transformer`).  The same case asserts the *line structure* of the output through
+  `-transformed-by T ( num-lines == K && ! any line : contents matches '\\n' )`.
 * API: the same generated (text, expression) pairs through the public parsers
   (`parse_string_matcher.parsers().full`, `parse_string_transformer.parsers().full` -> resolve -> validate ->
-  primitive), applied to a constant-string model and to a file model; ~15x cheaper per pair.
+  primitive), applied to a constant-string model and to a file model; ~15x cheaper per pair.  Plus an exhaustive
+  small scope: every text over {a A space newline} up to length 4 (thorough: 5, and 6 over {a space newline}) x a
+  fixed list of ~60 matchers and ~55 transformers.
+
+History: the colleague's defect model KF-C05-1 (`filter ! line-num ( <= 1 || == 4 )` kept only the lines after the
+hull of the operands' intervals) had the same root cause as KF-C13-1; /repo commit cbf30df repaired it, the model was
+removed, the generated input is kept as replays/C05/regress-kf1-*.json and the revert of the fix is a mutant.
 """
 import hashlib
 import json
@@ -26,17 +39,22 @@ from vlib.runner import Sub, Verdict, fail
 
 PROPERTY_ID = 'C05'
 LEVEL = 'exploration'
-RULE = ('case = (text T, expression E, kind of text source, spelling style); T: 0-6 lines over '
-        '{a b A B space tab . * + ? ( ) [ ] \\ ^ $ | e-acute 0 1 2}, last line with/without newline, empty lines, '
-        'whitespace-only lines, duplicated lines; E: matcher AST (depth <= 4, ~8 nodes) over is-empty, equals '
-        '(string / here-doc / file operand, optionally transformed), matches [-full], num-lines, every/any line, '
-        '-transformed-by, ! && ||, constant, with line-matchers (contents, line-num) and integer-matchers; or '
+RULE = ('case = (text T, expression E, kind of text source, spelling style, inline / via symbol); T: 0-6 lines '
+        '(thorough: 0-10) over {a b A B space tab . * + ? ( ) [ ] \\ ^ $ | e-acute 0 1 2}, last line with/without '
+        'newline, empty lines, whitespace-only lines, duplicated lines, extra leading/trailing empty lines, 6 % long '
+        'texts (> 110 chars); E: matcher AST (depth <= 4, <= 8 nodes; thorough 12) over is-empty, equals (string / '
+        'here-doc / file / program-output operand, optionally transformed), matches [-full], num-lines, every/any '
+        'line, -transformed-by, ! && ||, constant, with line-matchers (contents, line-num) and integer-matchers; or '
         'transformer AST over replace [-preserve-new-lines] [-at], strip variants, char-case, filter LM, filter '
-        '-line-nums, grep [-full], identity, |; regexes from a grammar that compiles by construction; generation is '
-        'steered by T (operands near T, integers near the line count, regexes generalised from lines of T). '
+        '-line-nums, grep [-full], identity, |; regexes from a grammar that compiles by construction (literals, '
+        'escaped metacharacters, classes, shorthands, quantifiers incl. lazy, groups, alternation, anchors, '
+        'back-references, inline flags (?m) (?s) (?i), -ignore-case); generation is steered by T (operands near T, '
+        'integers near the line count, regexes generalised from lines of T). Text source kinds: file, action output '
+        '(stdout, stderr, file written by the action), program output, literal (string, here-document). '
         'A case is non-trivial when E has a non-constant primitive and (T is non-empty or E asks about emptiness / '
-        'line count); distinct = distinct (T, E, kind of source). API-layer cases carry 6 matchers + 4 transformers per text; '
-        'each (T, E) pair counts separately.')
+        'line count); distinct = distinct (T, E, kind of source). API-layer cases carry 6 matchers + 4 transformers '
+        'per text (each (T, E) pair counts separately, label api:nontrivial-pairs); the small-scope sub-check is '
+        'exhaustive over its stated domain.')
 ASSUMPTIONS = [
     'Python\'s `re` is shared with the implementation on purpose (REGEX is defined as "Python syntax"); the '
     'meaning of -full, the replacement template and the division into lines are not shared',
@@ -45,9 +63,14 @@ ASSUMPTIONS = [
     'LINE-NUMBER-RANGE bounds that are 0 or fall outside 1..N after resolving negative numbers are read '
     'arithmetically (a range selects the line numbers n with lo <= n <= hi); the manual is silent on them',
     '`strip` whitespace = space, tab, newline (all that the alphabet contains)',
-    'expressions are rendered with the spellings DESIGN.md 2.10 lists as permitted; `:>` strings and '
-    'here-documents are only used where the rest of the expression may continue on the next line',
-    'the in-process run (fresh MainProgram per case) is representative of the CLI process',
+    'expressions are rendered with the spellings DESIGN.md 2.10 lists as permitted; `:>` strings, here-documents, '
+    'range lists and programs are only used where the rest of the expression may continue on the next line '
+    '(inside parentheses, or where an argument is still missing)',
+    'a matcher / transformer defined with `def` and referenced by name means the same as the expression written '
+    'inline (concept "symbol")',
+    'the text printed by `cat FILE` (stdout or stderr redirected) is the contents of FILE',
+    'the in-process run (fresh MainProgram per case) is representative of the CLI process (32 / 640 cases per run '
+    'are repeated through a real OS process)',
 ]
 
 
@@ -678,8 +701,9 @@ def _render_transformer_sample(case):
 def _edge_cases(tier):
     texts = ['', '\n', 'a', 'a\n', 'a\nb', 'a\nb\n', '\n\n', ' a \n', 'a\n\n', '\na', ' \n\t\n', 'ab\nab\nAB\n',
              'a.b\n', 'a' * 70, ('a' * 70) + '\n' + ('b' * 70) + '\n', 'ab\n' * 60]
+    extra = ['act_err', 'act_file', 'prog', 'prog_err', 'file_matcher', 'lit_here']
     for i, t in enumerate(texts):
-        for src in ('file', 'act', 'lit_str'):
+        for src in ('file', 'act', 'lit_str', extra[i % len(extra)]):
             n = ref.num_lines(t)
             ms = [['is-empty'], ['equals', {'text': t, 'form': 'str', 'tr': None}],
                   ['equals', {'text': t, 'form': 'file', 'tr': None}],
@@ -693,7 +717,7 @@ def _edge_cases(tier):
                   ['matches', True, {'pat': 'a', 'ic': False, 'groups': 0}],
                   ['matches', False, {'pat': 'a$', 'ic': False, 'groups': 0}]]
             for m in ms:
-                yield {'text': t, 'm': m, 'src': src, 'style': 0}
+                yield {'text': t, 'm': m, 'src': src, 'style': 0, 'sym': src in extra and i % 2 == 1}
 
 
 def _edge_cases_tr(tier):
@@ -712,10 +736,94 @@ def _edge_cases_tr(tier):
            ['filter', ['contents', ['matches', False, rx_a]]], ['filter', ['line-num', ['cmp', '>=', 2]]],
            ['filter-nums', [[-1]]], ['filter-nums', [[1, None]]], ['grep', True, rx_a],
            ['seq', ['strip', 'nl'], ['replace', {'pnl': False, 'at': None, 'rx': rx_a, 'repl': 'X\\n'}]]]
-    for t in texts:
+    extra = ['lit_here', 'prog_exe', 'prog_err', 'stdin', 'text_source_symbol']
+    for i, t in enumerate(texts):
         for tr in trs:
-            for src in ('file', 'lit_str', 'prog_shell'):
-                yield {'text': t, 'tr': tr, 'src': src, 'style': 0}
+            for src in ('file', 'lit_str', 'prog_shell', extra[i % len(extra)]):
+                yield {'text': t, 'tr': tr, 'src': src, 'style': 0, 'sym': src in extra and i % 2 == 1}
+
+
+# ======================================================================================================
+# small scope, exhaustive (API layer): every text over {a A space newline} up to a length bound x a fixed list of
+# primitive matchers / transformers (and a few compositions) that touch the places the property text names
+# ======================================================================================================
+def _rx(pat, ic=False, groups=0):
+    return {'pat': pat, 'ic': ic, 'groups': groups}
+
+
+def _i(n):
+    return {'v': n, 'src': str(n)}
+
+
+def _s(text, form='str', tr=None):
+    return {'text': text, 'form': form, 'tr': tr}
+
+
+def _repl(pat, repl, pnl=False, at=None, groups=0, ic=False):
+    return ['replace', {'pnl': pnl, 'at': at, 'rx': _rx(pat, ic, groups), 'repl': repl}]
+
+
+_SMALL_TRS = [
+    ['identity'], ['strip', None], ['strip', 'space'], ['strip', 'nl'], ['char-case', 'upper'], ['char-case', 'lower'],
+    _repl('a', 'X'), _repl('a', ''), _repl('\\n', ''), _repl('\\n', '', pnl=True), _repl(' ', '\\n'),
+    _repl('a', '\\n\\n'), _repl('a', 'x\\ny', pnl=True), _repl('^', '>'), _repl('$', '<'), _repl('$', '<', pnl=True),
+    _repl('a*', '-'), _repl('\\s', '_'), _repl('\\s', '_', pnl=True), _repl('(a)|( )', '[\\1\\2]', groups=2),
+    _repl('(a)(A)?', '\\g<2>\\1', groups=2), _repl('a', 'b', ic=True), _repl('a\\n', 'Z'), _repl('a\\n', 'Z', pnl=True),
+    _repl('a', 'X', at=['line-num', ['cmp', '==', _i(2)]]), _repl('^', '>', at=['contents', ['is-empty']]),
+    _repl('\\n', '', at=['not', ['line-num', ['cmp', '>=', _i(2)]]]),
+    _repl('$', '\\n', pnl=True, at=['contents', ['matches', True, _rx('a+')]]),
+    ['filter', ['line-num', ['cmp', '>=', _i(2)]]], ['filter', ['not', ['line-num', ['cmp', '==', _i(1)]]]],
+    ['filter', ['line-num', ['or', ['cmp', '<', _i(2)], ['cmp', '>', _i(2)]]]],
+    ['filter', ['contents', ['is-empty']]], ['filter', ['contents', ['matches', False, _rx('a')]]],
+    ['filter', ['and', ['line-num', ['cmp', '<=', _i(2)]], ['contents', ['not', ['is-empty']]]]],
+    ['filter', ['const', False]], ['filter', ['const', True]],
+    ['filter-nums', [[-1]]], ['filter-nums', [[2, None]]], ['filter-nums', [[None, -2]]], ['filter-nums', [[1], [3]]],
+    ['filter-nums', [[2, 3]]], ['filter-nums', [[-2, -1]]],
+    ['grep', False, _rx('a')], ['grep', True, _rx('a')], ['grep', True, _rx('')], ['grep', False, _rx('^$')],
+    ['grep', False, _rx('a', ic=True)], ['grep', True, _rx(' *a? *')],
+    ['seq', ['strip', 'nl'], _repl('a', 'X\\n')], ['seq', _repl(' ', '\\n'), ['filter-nums', [[2]]]],
+    ['seq', ['filter', ['line-num', ['cmp', '<=', _i(2)]]], ['filter', ['line-num', ['cmp', '>=', _i(2)]]]],
+    ['seq', _repl('\\n', ''), ['strip', None], ['char-case', 'upper']],
+    ['seq', ['identity'], ['strip', 'space'], ['identity']],
+    ['seq', ['grep', False, _rx('a')], _repl('\\n', ' '), ['strip', 'space']],
+]
+
+_SMALL_MS = [
+    ['is-empty'], ['not', ['is-empty']], ['equals', _s('')], ['equals', _s('a\n')], ['equals', _s('a\n', 'file')],
+    ['equals', _s('a\n', 'here')], ['equals', _s('a')], ['equals', _s('a', 'file')], ['equals', _s('\n', 'file')],
+    ['equals', _s('\n')], ['equals', _s('a\na\n', 'here')], ['equals', _s('a a', 'file')],
+    ['equals', _s(' a \n', 'str', ['strip', None])], ['equals', _s('a\n\n', 'file', ['strip', 'nl'])],
+    ['matches', False, _rx('a')], ['matches', True, _rx('a')], ['matches', True, _rx('a\\n')], ['matches', False, _rx('^a$')],
+    ['matches', False, _rx('(?m)^a$')], ['matches', True, _rx('.*')], ['matches', True, _rx('(?s).*')],
+    ['matches', False, _rx('a$')], ['matches', False, _rx('a\\Z')], ['matches', True, _rx('a', ic=True)],
+    ['matches', True, _rx('')], ['matches', False, _rx('')], ['matches', True, _rx('a|a\\n')], ['matches', False, _rx('\\n\\n')],
+    ['matches', True, _rx('(?:a|A| |\\n)*')], ['matches', False, _rx('^ ')], ['matches', False, _rx(' $')],
+    ['num-lines', ['cmp', '==', _i(0)]], ['num-lines', ['cmp', '==', _i(1)]], ['num-lines', ['cmp', '==', _i(2)]],
+    ['num-lines', ['cmp', '>', _i(2)]], ['num-lines', ['not', ['cmp', '<=', _i(1)]]],
+    ['every', ['contents', ['matches', False, _rx('a')]]], ['any', ['contents', ['is-empty']]],
+    ['every', ['contents', ['equals', _s('a')]]], ['any', ['contents', ['equals', _s('a', 'file')]]],
+    ['any', ['line-num', ['cmp', '==', _i(2)]]], ['every', ['line-num', ['cmp', '<=', _i(1)]]],
+    ['every', ['contents', ['matches', True, _rx('a*')]]], ['any', ['contents', ['matches', True, _rx(' +')]]],
+    ['every', ['contents', ['num-lines', ['cmp', '==', _i(1)]]]], ['any', ['contents', ['num-lines', ['cmp', '==', _i(0)]]]],
+    ['any', ['and', ['line-num', ['cmp', '>=', _i(2)]], ['contents', ['matches', False, _rx('a', ic=True)]]]],
+    ['every', ['const', False]], ['any', ['const', True]],
+    ['on', ['strip', None], ['is-empty']], ['on', ['filter', ['contents', ['is-empty']]], ['num-lines', ['cmp', '==', _i(1)]]],
+    ['on', ['char-case', 'upper'], ['equals', _s('A\n')]], ['on', _repl('\\n', ''), ['num-lines', ['cmp', '<=', _i(1)]]],
+    ['on', _repl('a', '\\n'), ['every', ['contents', ['is-empty']]]],
+    ['on', ['strip', 'nl'], ['matches', True, _rx('.*')]], ['on', ['grep', False, _rx('a')], ['equals', _s('a\n', 'file')]],
+    ['on', ['filter-nums', [[-1]]], ['equals', _s('a')]],
+]
+
+
+def _small_scope_cases(tier):
+    import itertools
+    max_len = 4 if tier == 'quick' else 6
+    for n in range(max_len + 1):
+        for chars in itertools.product('aA \n', repeat=n):
+            text = ''.join(chars)
+            if tier != 'quick' and n == 6 and 'A' in text:
+                continue  # length 6 over the 3-letter alphabet only
+            yield {'text': text, 'ms': _SMALL_MS, 'trs': _SMALL_TRS, 'style': 0}
 
 
 SUBS = [
@@ -728,6 +836,7 @@ SUBS = [
         budget={'quick': 4000, 'thorough': 80000}, render=_render_transformer_sample),
     Sub('api_pairs', check_api, strategy=lambda tier: _api_cases(tier),
         budget={'quick': 5000, 'thorough': 100000}),
+    Sub('api_small_scope', check_api, enumerate=_small_scope_cases, exhaustive=True),
     # the same check through a real OS process (guards against artefacts of the in-process harness)
     Sub('cli_matcher_subprocess', check_cli_matcher, strategy=lambda tier: _subproc_cases(),
         budget={'quick': 32, 'thorough': 640}, render=_render_matcher_sample),
